@@ -20,6 +20,42 @@ class Unfoldable(Exception):
     pass
 
 
+def mutates_outer_state(fd) -> bool:
+    """True if a function body stores into (or calls an in-place method on) one of its parameters or a name it does not
+    bind itself: the evaluator copies values on a call, so such aliasing effects would be lost - callers must not inline."""
+    if isinstance(fd, ast.Lambda):
+        return False
+    params = {a.arg for a in fd.args.args + fd.args.kwonlyargs}
+    local = set()
+    for st in ast.walk(fd):
+        if isinstance(st, (ast.Assign, ast.AugAssign, ast.AnnAssign, ast.For)):
+            tg = st.targets if isinstance(st, ast.Assign) else [st.target]
+            for t in tg:
+                for x in ast.walk(t):
+                    if isinstance(x, ast.Name) and isinstance(x.ctx, ast.Store):
+                        local.add(x.id)
+    for st in ast.walk(fd):
+        tg = []
+        if isinstance(st, ast.Assign):
+            tg = st.targets
+        elif isinstance(st, ast.AugAssign):
+            tg = [st.target]
+        for t in tg:
+            base = t
+            while isinstance(base, (ast.Subscript, ast.Attribute)):
+                base = base.value
+            if base is not t and isinstance(base, ast.Name) and (base.id in params or base.id not in local) and base.id != "self":
+                return True
+        if isinstance(st, ast.Expr) and isinstance(st.value, ast.Call) and isinstance(st.value.func, ast.Attribute):
+            m = st.value.func.attr
+            base = st.value.func.value
+            while isinstance(base, (ast.Subscript, ast.Attribute)):
+                base = base.value
+            if isinstance(base, ast.Name) and base.id != "self" and (base.id in params or base.id not in local) and (m.endswith("_") or m in ("append", "extend", "insert", "pop", "remove", "add", "update", "clear", "sort", "reverse")):
+                return True
+    return False
+
+
 class BoolList(list):
     """A boolean tensor (result of a comparison / all / any / ~): used as an index it is a mask, not a list of positions."""
 
@@ -481,6 +517,8 @@ class Folder:
                     raise Unfoldable(str(exc))
         if isinstance(node, ast.Call) and isinstance(node.func, ast.Name) and isinstance(self.names.get(node.func.id), (ast.FunctionDef, ast.Lambda)) and not node.keywords:
             fd_ = self.names[node.func.id]
+            if mutates_outer_state(fd_):
+                raise Unfoldable(f"local function {node.func.id} modifies its arguments / enclosing variables (aliasing is not modelled)")
             argv = [self.fold(a) for a in node.args]
             params_ = [a.arg for a in fd_.args.args]
             if len(argv) != len(params_):
@@ -563,6 +601,22 @@ class Folder:
                 if isinstance(v, list):
                     return _reshape(v, dims)
                 raise Unfoldable("reshape of a scalar")
+            if m == "squeeze" and len(node.args) <= 1 and not node.keywords:
+                v = self.fold(node.func.value)
+                if not node.args:
+                    while isinstance(v, list) and len(v) == 1:
+                        v = v[0]
+                    return v
+                d = self.fold(node.args[0])
+                if isinstance(v, list) and d == 0:
+                    return v[0] if len(v) == 1 else v
+                if isinstance(v, list) and d in (-1, _depth(v) - 1):
+                    def sq(z, lvl):
+                        if lvl == _depth(v) - 2:
+                            return [t[0] if isinstance(t, list) and len(t) == 1 else t for t in z] if all(isinstance(t, list) and len(t) == 1 for t in z) else z
+                        return [sq(t, lvl + 1) for t in z]
+                    return sq(v, 0) if _depth(v) >= 2 else (v[0] if len(v) == 1 else v)
+                raise Unfoldable("squeeze axis")
             if m == "unsqueeze" and len(node.args) == 1:
                 v, d = self.fold(node.func.value), self.fold(node.args[0])
                 if d == 0:
@@ -633,6 +687,8 @@ class Folder:
             from .frag import FragReturn, run_fragment
 
             fd = self.funcs[node.func.id]
+            if mutates_outer_state(fd):
+                raise Unfoldable(f"function {node.func.id} modifies its arguments (aliasing is not modelled)")
             params = [a.arg for a in fd.args.args]
             if "." in node.func.id and params and params[0] in ("self", "cls"):
                 params = params[1:]
